@@ -800,6 +800,16 @@ func run(c *lib.Ctx) error {
 		st, ps := runSplit(si)
 		c.Count(fmt.Sprintf("splitPeriod/%s/status-%d", si.Mode, st))
 		c.Res.Inputs[fmt.Sprint(id)] = c06in{Kind: "split", Split: &si}
+		// the rejection clause of the property, directly on splitPeriod
+		if pphv := *si.PPH; pphv >= 1 && pphv <= 3600 && si.SegDurMS > 0 {
+			notMultiple := (3600/pphv*1000)%si.SegDurMS != 0
+			if notMultiple && st != 500 {
+				c.Fail(fmt.Sprint(id), "reject:accepted", fmt.Sprintf("splitPeriod: period duration %d s is not a multiple of the segment duration %d ms but the result is %d", 3600/pphv, si.SegDurMS, st), c06in{Kind: "split", Split: &si})
+			}
+			if !notMultiple && st == 500 {
+				c.Fail(fmt.Sprint(id), "reject:rejected", fmt.Sprintf("splitPeriod: period duration %d s is a multiple of the segment duration %d ms but was rejected", 3600/pphv, si.SegDurMS), c06in{Kind: "split", Split: &si})
+			}
+		}
 		var ases []string
 		for _, as := range buildMPD(si).Periods[0].AdaptationSets {
 			ases = append(ases, coqAsIn(as))
